@@ -617,6 +617,24 @@ fn sessions(ctx: &Ctx, shard: usize, n: u64, rep: &mut Report) {
             }
         }
     }
+    if shard == 13 {
+        // a valid state report, then the SAME damaged line twice in a row (and a third time), then a valid one: every damaged
+        // reply is an error of its own, however familiar the line looks
+        for damaged in [&b":0100030407F2\r\n"[..], b":010003040\r\n", b"G0100030407F1\r\n", b":0100030407\r\n", b":010003040707EA\r\n"] {
+            for first in [S_CFG_RECV, S_PIX_FAIL, S_LOAD_PROG] {
+                let msgs = vec![RefMsg::Query(3), RefMsg::Query(3), RefMsg::Query(3), RefMsg::Query(3), RefMsg::Hello(3), RefMsg::Query(3)];
+                let mut tape = refs::wire(&RefMsg::Report(3, first));
+                tape.extend_from_slice(damaged);
+                tape.extend_from_slice(damaged);
+                tape.extend_from_slice(damaged);
+                tape.extend(refs::wire(&RefMsg::Report(3, S_UNCONF)));
+                tape.extend_from_slice(damaged);
+                tape.extend_from_slice(SENTINEL);
+                run_session(&msgs, tape, vec![], vec![], vec![], WriteAct::Accept(usize::MAX), rep);
+                rep.count("the_same_damaged_reply_several_times_in_a_row");
+            }
+        }
+    }
     if shard == 11 {
         // 300 data chunks in a row through one bus (a page of 4 800 bytes; more than any 8-bit tally of consecutive chunks
         // holds), then a query: chunk 256 is written like chunk 1
@@ -751,6 +769,20 @@ fn reply_tapes(rng: &mut Rng, own: u16) -> Vec<(Vec<u8>, &'static str)> {
     for n in [253usize, 254, 255] {
         v.push((with_sentinel(refs::wire(&RefMsg::Data { offset: rng.u16(), data: rng.bytes(n) })), "reply_maximum_length_frame"));
         v.push((with_sentinel(refs::wire(&RefMsg::Unknown { addr: own, ty: 0x7E, data: rng.bytes(n) })), "reply_maximum_length_frame"));
+    }
+    // replies that carry MORE than 255 data pairs, with a length field that matches modulo 256 (or says FF) and a checksum
+    // that is right for what was sent: undecodable, whatever arithmetic one does on the count
+    for n in [256usize, 257, 300, 511] {
+        for declared in [(n % 256) as u8, 0xFF] {
+            let mut fields = vec![declared, (own >> 8) as u8, own as u8, if n % 2 == 0 { 0x00 } else { 0x42 }];
+            fields.extend(rng.bytes(n));
+            let sum = fields.iter().fold(0u8, |x, y| x.wrapping_add(*y));
+            fields.push(sum.wrapping_neg());
+            let mut line = vec![b':'];
+            line.extend(hex(&fields).to_ascii_uppercase().into_bytes());
+            line.extend_from_slice(b"\r\n");
+            v.push((with_sentinel(line), "reply_of_more_than_255_data_pairs"));
+        }
     }
     v.push((refs::enc(own, 4, &[0x0F]), "reply_without_crlf_at_eof"));
     v.push((with_sentinel(b":0100FF040F\r\n".to_vec()), "reply_malformed"));
@@ -920,6 +952,7 @@ pub fn run(ctx: &Ctx) -> Outcome {
     floors.push(floor("replies of 523 bytes that take more than 12 s to arrive, no read failing", report.get("replies_trickling_in_over_seconds") == 2 && report.maxs.get("slowest_reply_seconds").copied().unwrap_or(0.0) > 12.0, format!("{} replies, slowest {:.1} s", report.get("replies_trickling_in_over_seconds"), report.maxs.get("slowest_reply_seconds").copied().unwrap_or(0.0))));
     floors.push(floor("300 data chunks in a row through one bus, then a query", report.get("sessions_of_300_consecutive_data_chunks") == 1, report.get("sessions_of_300_consecutive_data_chunks")));
     floors.push(floor("a flip in progress polled, then a poll whose reply arrives damaged (6 kinds of damage); damaged replies in random sessions", report.get("damaged_reply_to_a_poll_of_a_flip_in_progress") == 24 && report.get("session_replies_damaged_on_the_line") > 100, format!("{} / {}", report.get("damaged_reply_to_a_poll_of_a_flip_in_progress"), report.get("session_replies_damaged_on_the_line"))));
+    floors.push(floor("the same damaged reply line three times in a row after a valid report", report.get("the_same_damaged_reply_several_times_in_a_row") == 15, report.get("the_same_damaged_reply_several_times_in_a_row")));
     floors.push(floor("near-twin messages (no data / 00 / one byte / more; neighbouring type or address) back to back through one bus, every ordered pair", report.get("sessions_of_near_twin_messages") == 4 * 12 * 11, report.get("sessions_of_near_twin_messages")));
     floors.push(floor("data chunks followed by chunk counts of 0 / 1 / k / 65535 through one bus", report.get("sessions_with_chunks_and_counts") == 16, report.get("sessions_with_chunks_and_counts")));
     floors.push(floor("one bus instance used for 70 000 messages", report.get("long_session_messages_checked") == 70_000, report.get("long_session_messages_checked")));
